@@ -4,7 +4,7 @@ from .. import core, gen
 from . import vcdfam
 
 PID = "C04"
-LEVEL = "translation_validation"
+LEVEL = "proof"
 RULE = ("recorded histories are driven through wavemem::Encoder (hook): vcd_value_change, raw_value_change (pre-packed "
         "2/4/9-state data, also wider than necessary), real_change; one or several encoders appended in order; and the same "
         "histories as VCD files. Exhaustive: every ordered pair and triple of state kinds x widths 1..40 (meta bits in the "
